@@ -70,9 +70,9 @@ def expected(ver, m):
     return bool(c) or A.edc(), c, A
 
 
-def judge_batch(ver, models, st, strict_sample=None):
+def judge_batch(ver, models, st, strict_sample=None, wrap=None):
     out = []
-    s, merr, other = cmlib.build_batch(ver, models)
+    s, merr, other = cmlib.build_batch(ver, models, wrap=wrap)
     for i, m in enumerate(models):
         st.case()
         if other[i]:
@@ -94,7 +94,7 @@ def judge_batch(ver, models, st, strict_sample=None):
         if strict_sample is not None and strict_sample(i):
             st.case()
             st.cls('strict_rebuild')
-            fails, oth = cmlib.strict_build_fails(ver, m)
+            fails, oth = cmlib.strict_build_fails(ver, m, wrap=wrap)
             if oth or fails != got:
                 out.append({'kind': 'strict_vs_lax', 'input': {'ver': ver, 'model': m},
                             'expected': 'strict build raises XMLSchemaModelError iff lax build '
@@ -243,6 +243,8 @@ def shards(tier, seed):
                 out.append(('A', ver, name, k, nshard, tier, seed))
         for k in range(8):
             out.append(('B', ver, k, 8, tier, seed))
+        for k in range(2):
+            out.append(('W', ver, k, 2, tier, seed))
     return out
 
 
@@ -270,6 +272,22 @@ def run_shard(desc):
             st.sample({'scope': name, 'ver': ver, 'model': cm.show(m),
                        'reference': 'non-deterministic' if e else 'deterministic'})
         st.info['scope_%s_size' % name] = len(models) if (k == 0 and ver == '10') else 0
+        for r in recs:
+            core.report(st, PROPERTY, r)
+    elif desc[0] == 'W':
+        # the same verdict wherever the model is declared: here as the anonymous type of a local element of a named group
+        _, ver, k, n, tier, seed = desc
+        models = _scope_models('S1')
+        rnd = random.Random(core.derive_seed(seed, 'C15', 'wrap'))
+        idx = sorted(rnd.sample(range(len(models)), 8000 if tier == 'thorough' else 1200))
+        mine = [models[i] for j, i in enumerate(idx) if j % n == k]
+        rs = random.Random(core.derive_seed(seed, 'C15strictw', ver, k))
+        for b in range(0, len(mine), BATCH):
+            batch = mine[b:b + BATCH]
+            pick = rs.randrange(len(batch))
+            recs += judge_batch(ver, batch, st, strict_sample=lambda i, p=pick: i == p, wrap='group-local')
+        if k == 0:
+            st.sample({'scope': 'S1 sample, model declared as anonymous type of a local element inside a named group', 'ver': ver})
         for r in recs:
             core.report(st, PROPERTY, r)
     else:
